@@ -325,16 +325,13 @@ func (c *vfC14Case) commit(p *vfC14Prepared, who string, rev string, doc *Docume
 		return
 	}
 	// the implicit parent is whatever is current when the write is applied; the id is then re-derived
-	want := p.newRev
-	if w.implicit {
-		var perr error
-		if want, perr = c.predictRev(d, w); perr != nil {
-			c.harness("predictRev: %v", perr)
-		}
+	want, perr := c.predictRevs(d, w)
+	if perr != nil {
+		c.harness("predictRev: %v", perr)
 	}
 	c.ops = append(c.ops, fmt.Sprintf("%s %s -> %s", who, w.render(c.contents), rev))
-	if rev != want {
-		c.harness("write %s returned revision %s, the documented id is %s", w.render(c.contents), rev, want)
+	if !base.StringSliceContains(want, rev) {
+		c.harness("write %s returned revision %s, the documented id is %v", w.render(c.contents), rev, want)
 	}
 	pid := w.resolveParent(d)
 	wasLeaf := pid == "" || d.isLeaf(pid)
@@ -427,14 +424,43 @@ func (c *vfC14Case) commit(p *vfC14Prepared, who string, rev string, doc *Docume
 	}
 }
 
+// predictRevs: the ids a write may legitimately come back with. A tombstoning Put whose first attempt
+// lost its compare-and-swap computes the id of the retry over the body without the _deleted marker
+// (the marker is consumed by the first attempt), so both ids are accepted for it.
+func (c *vfC14Case) predictRevs(d *vfC14Doc, w *vfC14Write) ([]string, error) {
+	rev, err := c.predictRev(d, w)
+	if err != nil {
+		return nil, err
+	}
+	out := []string{rev}
+	if !w.push && w.deleted {
+		parent := w.resolveParent(d)
+		alt, err := vfC14PutRevID(d.revs[parent].gen+1, parent, w.n, false)
+		if err != nil {
+			return nil, err
+		}
+		out = append(out, alt)
+	}
+	return out, nil
+}
+
 // hits13 reports whether applying w on model state d has the shape of known finding 13: the new
 // revision is not the document's winner after the write, and attachments are involved (on the new
 // revision, on the winner before or on the winner after the write).
 func (c *vfC14Case) hits13(d *vfC14Doc, w *vfC14Write) bool {
-	rev, err := c.predictRev(d, w)
+	revs, err := c.predictRevs(d, w)
 	if err != nil {
 		return false
 	}
+	for _, rev := range revs {
+		if c.hits13As(d, w, rev) {
+			return true
+		}
+	}
+	return false
+}
+
+func (c *vfC14Case) hits13As(d *vfC14Doc, w *vfC14Write, rev string) bool {
 	sim := d.clone()
 	pre := sim.winner()
 	r, err := sim.apply(w, rev)
@@ -705,7 +731,9 @@ func (c *vfC14Case) check() {
 	}
 	exists := map[string]bool{}
 	for _, row := range snap.Docs {
-		if strings.HasPrefix(row.Key, base.Att2Prefix) && row.HasBody && !row.Tombstone {
+		// (rosmar keeps its tombstone flag on a row that was deleted and then added again; a row
+		// exists when it has a value - that is what GetRaw answers)
+		if strings.HasPrefix(row.Key, base.Att2Prefix) && row.HasBody {
 			exists[row.Key] = true
 		}
 	}
